@@ -35,6 +35,7 @@ type End struct {
 	LibAlive []string // threads spawned by the code under test that did not finish
 	Steps    int
 	Pruned   bool
+	NewFds   []string // descriptors on regular paths that appeared during the execution and are still open
 }
 
 // Scenario is one closed program: a body run as thread 0 and an oracle.
@@ -47,6 +48,24 @@ type Scenario struct {
 	Check func(x *X, e *End) []Violation
 	// Outcome summarises what was observable (distinct-outcome counting).
 	Outcome func(x *X, e *End) string
+	// CountFds: compare the process's descriptors on regular paths before and after (leak detection beyond the inotify seam)
+	CountFds bool
+}
+
+// pathFds lists the targets of this process's descriptors that point at regular paths.
+func pathFds() map[string]int {
+	out := map[string]int{}
+	ents, err := os.ReadDir("/proc/self/fd")
+	if err != nil {
+		return out
+	}
+	for _, e := range ents {
+		t, err := os.Readlink("/proc/self/fd/" + e.Name())
+		if err == nil && strings.HasPrefix(t, "/") && !strings.HasPrefix(t, "/proc/self/fd") && !strings.HasPrefix(t, "/dev/shm/vx-") {
+			out[t]++
+		}
+	}
+	return out
 }
 
 type ExecResult struct {
@@ -60,6 +79,7 @@ type ExecResult struct {
 	Log        []Obs
 	EngineErr  string
 	Pruned     bool
+	Aux        string // scenario-defined extra observation (e.g. the received event sequence)
 }
 
 var workRoot string
@@ -105,6 +125,10 @@ func RunOnce(sc *Scenario, prefix []int, keep bool, onStep func(*vsched.Sched, *
 		s.OnStep = func(ss *vsched.Sched) { onStep(ss, x) }
 	}
 	res := &ExecResult{}
+	var fdsBefore map[string]int
+	if sc.CountFds {
+		fdsBefore = pathFds()
+	}
 	s.Run(func() { sc.Body(x) })
 	e := &End{Blocked: s.BlockedThreads(), Failure: s.Failure, Lockset: s.Lockset, Steps: s.Steps, Pruned: s.Pruned}
 	for _, p := range x.Pending {
@@ -122,12 +146,23 @@ func RunOnce(sc *Scenario, prefix []int, keep bool, onStep func(*vsched.Sched, *
 		e.LeftOpen = vs.OpenFds()
 		sort.Ints(e.LeftOpen)
 	}
+	if sc.CountFds {
+		for t, n := range pathFds() {
+			if n > fdsBefore[t] {
+				e.NewFds = append(e.NewFds, t)
+			}
+		}
+		sort.Strings(e.NewFds)
+	}
 	if ee := s.EngineErr(); ee != nil {
 		res.EngineErr = ee.Msg
 	} else if !s.Pruned {
 		res.Violations = sc.Check(x, e)
 		if sc.Outcome != nil {
 			res.Outcome = sc.Outcome(x, e)
+		}
+		if a, ok := x.Vars["aux"].(string); ok {
+			res.Aux = a
 		}
 	}
 	s.Teardown()
